@@ -1,7 +1,7 @@
 (* C13 property theorems. Only statements closed by [exact lemma] and Print Assumptions. *)
 From V Require Import Common.Base C13.KwSpec C13.KwProofs gen.KeywordsGen.
 From V Require Import C13.Token C13.LexSpec C13.Toks C13.TokenProofs C13.RenderLex.
-From V Require Import C13.ParseSpec C13.PrintParse C13.PrintParse2 C13.PrintNorm.
+From V Require Import C13.ParseSpec C13.PrintParse C13.PrintParse2 C13.PrintNorm C13.PrintChain C13.ParseFuel C13.RoundTrip.
 
 (* the keyword table of the lexer (regenerated from the source by T6) is exactly the
    ECMA-262 reserved-word list minus the two contextually reserved words await/yield *)
@@ -65,3 +65,29 @@ Print Assumptions norm_prints_the_same.
 Theorem norm_idempotent : forall e, norm (norm e) = norm e.
 Proof. exact norm_idem. Qed.
 Print Assumptions norm_idempotent.
+
+(* every printed well-formed tree is a grammatical chain of well-formed items, so render_lex applies:
+   the text of a printed tree lexes to the tokens of its items, in both whitespace modes *)
+Theorem print_lex : forall mw e, wf e -> lexok e ->
+  lex (print_expr mw e) = Some (toks (print_items LLowest e)).
+Proof. exact print_lex_all. Qed.
+Print Assumptions print_lex.
+
+(* if some fuel parses a token list, the concrete fuel of [parse] (2 * tokens + 2) does too *)
+Theorem parse_fuel_sufficient : forall n ts e, parse_fuel n ts = Some e -> parse ts = Some e.
+Proof. exact parse_fuel_enough. Qed.
+Print Assumptions parse_fuel_sufficient.
+
+(* print_parse_roundtrip: the printed text of every well-formed expression tree of the fragment,
+   in either whitespace mode, is read back (ECMA-262 lexer, then ECMA-262 expression parser) as the
+   same tree up to norm.  [lexok] is the one lexical side condition of render_lex: the operand of a
+   prefix ++/-- does not start with a number or a regular expression. *)
+Theorem print_parse_roundtrip : forall mw e, wf e -> lexok e -> parse_text (print_expr mw e) = Some (norm e).
+Proof. exact print_parse_roundtrip_concrete. Qed.
+Print Assumptions print_parse_roundtrip.
+
+(* print_fixed_point: printing what was read back reproduces the text exactly, in both modes *)
+Theorem print_fixed_point : forall mw e e', wf e -> lexok e ->
+  parse_text (print_expr mw e) = Some e' -> forall mw', print_expr mw' e' = print_expr mw' e.
+Proof. exact print_fixed_point_concrete. Qed.
+Print Assumptions print_fixed_point.
